@@ -35,6 +35,7 @@ import (
 	"github.com/icon-project/goloop/common/wallet"
 	"github.com/icon-project/goloop/consensus"
 	"github.com/icon-project/goloop/module"
+	"github.com/icon-project/goloop/service"
 	"github.com/icon-project/goloop/service/contract"
 	"github.com/icon-project/goloop/service/platform/basic"
 	"github.com/icon-project/goloop/service/scoredb"
@@ -129,6 +130,7 @@ type Tx struct {
 	Limit string `json:"limit"` // stepLimit, decimal
 	DT    int    `json:"dt"`    // DTNone, DTMessage, DTCall
 	Pad   int    `json:"pad"`   // size knob of the data field
+	Async bool   `json:"async,omitempty"` // scripted contract as asynchronous (engine-like) handler
 	Ops   []Op   `json:"ops,omitempty"`
 }
 
@@ -181,10 +183,18 @@ func (t *nullT) Errorf(format string, args ...interface{}) {
 }
 func (t *nullT) Logf(format string, args ...any) {}
 
+// TxTimeout is the transaction timeout of the fixture's chain (test.Chain has 5s):
+// how long a hanging asynchronous frame blocks before waitResult's timer fires.
+const TxTimeout = 4000 * time.Millisecond
+
+type shortChain struct{ module.Chain }
+
+func (c *shortChain) TransactionTimeout() time.Duration { return TxTimeout }
+
 type Env struct {
 	t     *nullT
 	node  *test.Node
-	sm    *test.ServiceManager
+	nctx  *test.NodeContext
 	base  module.Transition // after genesis + one-time initialisation
 	nonce int64
 
@@ -248,23 +258,28 @@ func NewEnv() (*Env, error) {
 			NewPlatform: func(ctx *test.NodeContext) base.Platform {
 				return &plat{Platform: basic.Platform, env: e}
 			},
+			NewSM: func(ctx *test.NodeContext) module.ServiceManager {
+				e.nctx = ctx
+				return test.NewServiceManager(ctx.C, ctx.Platform, ctx.CM, ctx.EM)
+			},
 		}))
 	if len(e.t.errs) > 0 {
 		return nil, fmt.Errorf("node set-up: %v", e.t.errs)
 	}
 	e.node.Chain.Logger().SetLevel(log.FatalLevel)
-	sm, ok := e.node.SM.(*test.ServiceManager)
-	if !ok {
-		return nil, fmt.Errorf("unexpected service manager %T", e.node.SM)
+	if e.nctx == nil {
+		return nil, fmt.Errorf("service manager factory was not called")
 	}
-	e.sm = sm
 	// block 0 carries the genesis transaction; its effects are the Result of block 1
 	e.node.ProposeFinalizeBlock(consensus.NewEmptyCommitVoteList())
 	if len(e.t.errs) > 0 {
 		return nil, fmt.Errorf("block 1: %v", e.t.errs)
 	}
 	blk := e.node.LastBlock
-	itr, err := sm.CreateInitialTransition(blk.Result(), blk.NextValidators())
+	// the transitions are created like test.ServiceManager does, but on a chain whose
+	// TransactionTimeout is short enough to let a frame really time out
+	itr, err := service.NewInitTransition(e.nctx.C.Database(), blk.Result(), blk.NextValidators(),
+		e.nctx.CM, e.nctx.EM, &shortChain{e.nctx.C}, e.nctx.C.Logger(), e.nctx.Platform, service.NewTimestampChecker())
 	if err != nil {
 		return nil, err
 	}
@@ -304,10 +319,8 @@ func (e *Env) execute(parent module.Transition, txs []module.Transaction, height
 	txl := transaction.NewTransactionListFromSlice(e.node.Chain.Database(), txs)
 	bi := common.NewBlockInfo(height, height*1_000_000)
 	csi := common.NewConsensusInfo(nil, nil, nil)
-	tr, err := e.sm.CreateTransition(parent, txl, bi, csi, true)
-	if err != nil {
-		return nil, nil, err
-	}
+	tr := service.NewTransition(parent, nil, txl, bi, csi, true)
+	var err error
 	e.mu.Lock()
 	e.rec = rec
 	e.recErr = ""
@@ -318,7 +331,7 @@ func (e *Env) execute(parent module.Transition, txs []module.Transaction, height
 	}
 	select {
 	case err = <-cb.ch:
-	case <-time.After(60 * time.Second):
+	case <-time.After(120 * time.Second):
 		err = fmt.Errorf("transition did not complete in 60s")
 	}
 	e.mu.Lock()
@@ -604,7 +617,11 @@ func dataOf(tx *Tx) (dataType *string, data []byte) {
 			pad += "p"
 		}
 		if tx.To == IDScript {
-			return &dt, []byte(`{"method":"run","params":{"pad":"` + pad + `","s":"` + EncodeOps(tx.Ops) + `"}}`)
+			method := "run"
+			if tx.Async {
+				method = "runa"
+			}
+			return &dt, []byte(`{"method":"` + method + `","params":{"pad":"` + pad + `","s":"` + EncodeOps(tx.Ops) + `"}}`)
 		}
 		return &dt, []byte(`{"method":"poke","params":{"pad":"` + pad + `"}}`)
 	}
